@@ -5,6 +5,7 @@ import (
 	"go/constant"
 	"go/types"
 	"os"
+	"regexp"
 	"strconv"
 	"strings"
 
@@ -12,6 +13,8 @@ import (
 )
 
 // evalCtx: where a contract expression is evaluated.
+var boundVarRe = regexp.MustCompile(`^\|[A-Za-z_0-9]+\?[0-9]+\|$`)
+
 type evalCtx struct {
 	env      map[ssa.Value]Val
 	st       *State
@@ -24,7 +27,12 @@ type evalCtx struct {
 	inOld    bool
 	depth    int
 	at       ssa.Instruction // evaluation point inside block (definitions earlier in the block are visible)
+	pats     *[]string       // candidate trigger terms collected while evaluating a quantifier body (slice reads s[i] at a bare bound index)
+	patUses  *[]patUse
 }
+
+// patUse: a slice read s[i] at a bare bound index i, recorded while a quantifier body is evaluated
+type patUse struct{ heap, slice, idx string }
 
 func (c *evalCtx) with(extra map[string]Val) *evalCtx {
 	n := *c
@@ -325,6 +333,10 @@ func (x *FnExec) eval(fr *frame, e Expr, c *evalCtx) (Val, error) {
 		}
 		nc := c.with(extra)
 		nc.depth = c.depth + 1
+		var pats []string
+		var uses []patUse
+		nc.pats = &pats
+		nc.patUses = &uses
 		body, err := x.eval(fr, e.Body, nc)
 		if err != nil {
 			return Val{}, err
@@ -336,6 +348,50 @@ func (x *FnExec) eval(fr *frame, e Expr, c *evalCtx) (Val, error) {
 		g := and(guards...)
 		if e.Forall {
 			b = implies(g, b)
+			// A single integer binder i used as the bare index of ONE slice s: quantify over the absolute position
+			// j = s_off(s)+i instead and trigger on (select array j). Index arithmetic inside a trigger does not survive the
+			// solvers' normalisation of sums, an absolute position does.
+			if len(e.Vars) == 1 && x.q.mode != ModeBV && os.Getenv("TVC_NO_AUTOPAT") == "" && extra[e.Vars[0].Name].Sort == x.q.intSort() {
+				sym := extra[e.Vars[0].Name].S
+				slices := map[string]bool{}
+				for _, u := range uses {
+					if u.idx == sym {
+						slices[u.slice] = true
+					}
+				}
+				if len(slices) == 1 {
+					var sl string
+					for k := range slices {
+						sl = k
+					}
+					x.q.fresh["qv_abs"]++
+					j := fmt.Sprintf("|j?abs%d|", x.q.fresh["qv_abs"])
+					rel := fmt.Sprintf("(- %s (s_off %s))", j, sl)
+					ex2 := map[string]Val{e.Vars[0].Name: {S: rel, T: extra[e.Vars[0].Name].T, Sort: x.q.intSort()}}
+					nc2 := c.with(ex2)
+					nc2.depth = c.depth + 1
+					body2, err2 := x.eval(fr, e.Body, nc2)
+					if err2 == nil {
+						g2 := "true"
+						if t := extra[e.Vars[0].Name].T; t != nil {
+							g2 = x.validFact(rel, t, 0)
+						}
+						seenP := map[string]bool{}
+						ps := ""
+						for _, u := range uses {
+							if u.idx != sym {
+								continue
+							}
+							pt := sel(sel(u.heap, "(s_arr "+u.slice+")"), j)
+							if !seenP[pt] && len(seenP) < 3 {
+								seenP[pt] = true
+								ps += " :pattern (" + pt + ")"
+							}
+						}
+						return Val{S: fmt.Sprintf("(forall ((%s %s)) (! %s%s))", j, x.q.intSort(), implies(g2, body2.S), ps), T: types.Typ[types.Bool]}, nil
+					}
+				}
+			}
 			return Val{S: fmt.Sprintf("(forall (%s) %s)", strings.Join(binders, " "), b), T: types.Typ[types.Bool]}, nil
 		}
 		b = and(g, b)
@@ -632,7 +688,14 @@ func (x *FnExec) evalIndex(xv, iv Val, c *evalCtx) (Val, error) {
 		iv = x.fixLit(iv)
 		hn, hs := x.elemHeap(t.Elem())
 		idx := x.arith("+", "(s_off "+xv.S+")", x.toInt(iv), types.Typ[types.Int])
-		return Val{S: sel(sel(x.heapGet(st, hn, hs), "(s_arr "+xv.S+")"), idx), T: t.Elem()}, nil
+		term := sel(sel(x.heapGet(st, hn, hs), "(s_arr "+xv.S+")"), idx)
+		if c.pats != nil && boundVarRe.MatchString(iv.S) && !strings.Contains(xv.S, iv.S) {
+			*c.pats = append(*c.pats, term)
+			if c.patUses != nil {
+				*c.patUses = append(*c.patUses, patUse{heap: x.heapGet(st, hn, hs), slice: xv.S, idx: iv.S})
+			}
+		}
+		return Val{S: term, T: t.Elem()}, nil
 	case *types.Array:
 		iv = x.fixLit(iv)
 		return Val{S: sel(xv.S, x.toInt(iv)), T: t.Elem()}, nil
